@@ -39,7 +39,28 @@ type Case struct {
 	Steps []Step `json:"steps"`
 }
 
+// floors are the highest values on record per key; -1 = none.  Values of 2^63 and above (legal in an
+// interchange file, which carries unsigned 64-bit numbers as strings) are clamped to MaxInt64 for
+// the purpose of probing: Dirk refuses requests above MaxInt64 anyway, so "everything at or below
+// the value is refused" is decided by probes at or below MaxInt64.
 type floors struct{ slot, src, tgt int64 }
+
+// parseU parses an unsigned 64-bit decimal string the way the interchange format defines numbers and
+// clamps it to MaxInt64; ok=false for anything else (sign, blanks, hex, fractions, out of range).
+func parseU(x string) (int64, bool) {
+	if x == "" || strings.TrimSpace(x) != x || x[0] == '+' || x[0] == '-' {
+		return 0, false
+	}
+	v, err := strconv.ParseUint(x, 10, 64)
+	if err != nil {
+		return 0, false
+	}
+	if v > 1<<63-1 {
+		return 1<<63 - 1, true
+	}
+
+	return int64(v), true
+}
 
 type genModel struct{ f [3]floors }
 
@@ -65,7 +86,10 @@ func rel(t *rapid.T, base int64, label string) int64 {
 	return v
 }
 
-var malformedNumbers = []string{"abc", "-5", "-1", "9223372036854775808", "18446744073709551615", "", "1.5", "0x10", " 7"}
+var malformedNumbers = []string{"abc", "-5", "-1", "18446744073709551616", "", "1.5", "0x10", " 7", "+3"}
+
+// hugeNumbers are legal unsigned 64-bit values that do not fit Dirk's signed records.
+var hugeNumbers = []string{"9223372036854775808", "18446744073709551615", "9223372036854775807", "12000000000000000000"}
 var malformedKeys = []string{"0x1234", "zz", "0x" + strings.Repeat("ab", 49), "", "0x" + strings.Repeat("g", 96)}
 
 func genFile(t *rapid.T, g *genModel) (string, []FileEntry, bool) {
@@ -86,6 +110,13 @@ func genFile(t *rapid.T, g *genModel) (string, []FileEntry, bool) {
 		na := rapid.IntRange(0, 3).Draw(t, "natts")
 		for j := 0; j < na; j++ {
 			e.Atts = append(e.Atts, [2]string{strconv.FormatInt(rel(t, g.f[k].src, "src"), 10), strconv.FormatInt(rel(t, g.f[k].tgt, "tgt"), 10)})
+		}
+		if rapid.IntRange(0, 14).Draw(t, "huge") == 0 {
+			if rapid.Bool().Draw(t, "huge_block") {
+				e.Blocks = append(e.Blocks, rapid.SampledFrom(hugeNumbers).Draw(t, "huge_slot"))
+			} else {
+				e.Atts = append(e.Atts, [2]string{"3", rapid.SampledFrom(hugeNumbers).Draw(t, "huge_tgt")})
+			}
 		}
 		if malformed && rapid.Bool().Draw(t, "mal_here") {
 			switch rapid.IntRange(0, 2).Draw(t, "mal_kind") {
@@ -190,14 +221,14 @@ func buildFile(s *Step) ([]byte, bool) {
 		}
 		for _, b := range e.Blocks {
 			d.Blocks = append(d.Blocks, Block{Slot: b})
-			if v, err := strconv.ParseInt(b, 10, 64); err != nil || v < 0 || strings.TrimSpace(b) != b {
+			if _, ok := parseU(b); !ok {
 				wellFormed = false
 			}
 		}
 		for _, a := range e.Atts {
 			d.Atts = append(d.Atts, AttE{Source: a[0], Target: a[1]})
 			for _, x := range a {
-				if v, err := strconv.ParseInt(x, 10, 64); err != nil || v < 0 || strings.TrimSpace(x) != x {
+				if _, ok := parseU(x); !ok {
 					wellFormed = false
 				}
 			}
@@ -348,14 +379,14 @@ func run(c *Case) (*outcome, *vkit.Violation, error) {
 					seen[e.Key] = true
 					fm := floors{-1, -1, -1}
 					for _, b := range e.Blocks {
-						v, _ := strconv.ParseInt(b, 10, 64)
+						v, _ := parseU(b)
 						if v > fm.slot {
 							fm.slot = v
 						}
 					}
 					for _, a := range e.Atts {
-						v0, _ := strconv.ParseInt(a[0], 10, 64)
-						v1, _ := strconv.ParseInt(a[1], 10, 64)
+						v0, _ := parseU(a[0])
+						v1, _ := parseU(a[1])
 						if v0 > fm.src {
 							fm.src = v0
 						}
@@ -476,6 +507,20 @@ func TestC10(t *testing.T) {
 		vkit.S.ClassN("first-import-into-empty-db", o.firstImport)
 		vkit.S.ClassN("import-after-restart", o.afterRestart)
 		vkit.S.ClassN("probes", o.probes)
+		for _, st := range c.Steps {
+			for _, e := range st.Entries {
+				for _, b := range e.Blocks {
+					if len(b) >= 19 {
+						vkit.S.Class("file-with-value>=2^63-1")
+					}
+				}
+				for _, a := range e.Atts {
+					if len(a[1]) >= 19 {
+						vkit.S.Class("file-with-value>=2^63-1")
+					}
+				}
+			}
+		}
 		nt := o.mixed > 0 || o.repeated > 0
 		if nt {
 			vkit.S.Nontrivial(c)
